@@ -10,7 +10,12 @@ import numpy as np
 from harness import common as C
 
 KERNELS = ["linear", "rbf", "poly", "sigmoid", "cosine", "precomputed"]
-REGRESSORS = ["none", "krr_unfitted", "krr_fitted", "pre_W", "pre_noW"]
+REGRESSORS = ["none", "krr_unfitted", "krr_fitted", "pre_W", "pre_noW", "pre_raw_noW", "pre_raw_W"]
+# pre_W / pre_noW: regressor="precomputed" with Yhat = K W_ridge (a Yhat the kernel reproduces);
+# pre_raw_noW: the raw targets are passed as Yhat and W is left to the library (lstsq(K, Yhat, tol));
+# pre_raw_W: raw targets and a W that does NOT reproduce them.  In the raw kinds K W != Yhat in
+# general, so K P != K~ and T^T T is not diag(S): everything downstream must use T itself.
+RAW_KINDS = ("pre_raw_noW", "pre_raw_W")
 TOL = 1e-12           # KernelPCovR default tol (kept at the default in every case)
 GAP = 1e-4            # required relative eigen-gap at position k
 SOLID = 1e-7          # retained eigenvalues must be > SOLID*S_1 (or numerically dead)
@@ -48,7 +53,7 @@ def gen_case(rng, quick):
     if base_kernel == "sigmoid":
         params["gamma"] = rng.choice([0.01, 0.05, 0.1])
         params["coef0"] = rng.choice([0.0, 0.1])
-    case = dict(n=n, d=d, p=p, k=k, kernel=kernel, base_kernel=base_kernel, params=params,
+    case = dict(n=n, d=d, p=p, k=k, wseed=rng.randrange(2 ** 31), kernel=kernel, base_kernel=base_kernel, params=params,
                 center=rng.random() < 0.5, regressor=regressor, y1d=bool(y1d), mixing=mixing,
                 alpha=rng.choice([1.0, 1e-1, 1e-2, 1e-3]), X=X.tolist(), Y=Y.tolist())
     # new-data sets: the training set itself plus held-out sets of size 1, <n, =n, >n
@@ -198,9 +203,14 @@ def build(case, kernel=None, center=None, Xfit=None, regr_kernel_data=None):
         Kraw = kern(case, X)
         Kc = center_blocks(Kraw)[0] if case["center"] else Kraw
         Wd = np.linalg.solve(Kc + case["alpha"] * np.eye(len(Kc)), Y)
-        Yfit = Kc @ Wd                      # "the regressed form of the targets"
-        if reg == "pre_W":
-            W = Wd
+        if reg in RAW_KINDS:
+            Yfit = Y.copy()                 # arbitrary Yhat: not in the range of K in general
+            if reg == "pre_raw_W":
+                W = Wd + 0.3 * np.random.RandomState(case.get("wseed", 0)).standard_normal(Wd.shape)
+        else:
+            Yfit = Kc @ Wd                  # "the regressed form of the targets"
+            if reg == "pre_W":
+                W = Wd
     est = KernelPCovR(mixing=case["mixing"], n_components=case["k"], regressor=regressor,
                       kernel=kernel, center=center, **case["params"])
     return est, Xfit, Yfit, W
@@ -252,19 +262,44 @@ def observe(case, est, Xfit, Yfit, W):
     return rec
 
 
-def run_impl(case):
-    """Fit through the public API and observe attributes, transform, predict, score."""
+def _pristine(A):
+    return A.copy() if isinstance(A, np.ndarray) else (None if A is None else [list(r) if isinstance(r, list) else r for r in A])
+
+
+def disturb_caller_arrays(est, Xfit, Yfit, W):
+    """What a caller that recycles its buffers does after fit: every array that was passed to fit
+    (and the user's own fitted regressor) is overwritten IN PLACE.  The estimator must have kept
+    values, not references (the object model of coq/Model/KPCovRState.v stores values)."""
+    for A in (Xfit, Yfit, W):
+        if isinstance(A, np.ndarray) and A.flags.writeable:
+            if A.dtype.kind in "iu":
+                A[...] = 3
+            else:
+                A[...] = -7.25
+    reg = est.regressor
+    if reg is not None and not isinstance(reg, str) and hasattr(reg, "dual_coef_"):
+        reg.dual_coef_[...] = 11.0
+        if isinstance(getattr(reg, "X_fit_", None), np.ndarray):
+            reg.X_fit_[...] = 5.0
+
+
+def run_impl(case, disturb=True):
+    """Fit through the public API and observe attributes, transform, predict, score.  With
+    `disturb` the caller's arrays are overwritten in place between fit and the observations."""
     with warnings.catch_warnings():
         warnings.simplefilter("ignore")
         try:
             est, Xfit, Yfit, W = build(case)
+            keep = (_pristine(Xfit), _pristine(Yfit), _pristine(W))
             if W is None:
                 est.fit(Xfit, Yfit)
             else:
                 est.fit(Xfit, Yfit, W)
         except Exception as e:  # noqa
             return dict(news=[], error=type(e).__name__, error_msg=str(e)[:300]), None
-        rec = observe(case, est, Xfit, Yfit, W)
+        if disturb:
+            disturb_caller_arrays(est, Xfit, Yfit, W)
+        rec = observe(case, est, *keep)
     return rec, est
 
 
@@ -284,7 +319,7 @@ def mirror(case, rec):
         Yhat = K @ W
     else:
         Yhat = Y
-        if case["regressor"] == "pre_W":
+        if "W_pre" in rec:
             W = np.array(rec["W_pre"], float)
         else:
             W = np.linalg.lstsq(K, Yhat, TOL)[0]
@@ -296,6 +331,13 @@ def mirror(case, rec):
     V = evecs[:, order][:, :k]
     S = lam[:k].copy()
     info = dict(skip=None)
+    if case["regressor"] == "pre_raw_noW":
+        # W = lstsq(K, Yhat, tol) of a Yhat outside the range of K amplifies the components along
+        # small singular directions by 1/sigma: the hint is only comparable when no singular value
+        # of K is near the cut-off (tol * sigma_1) or makes the solve ill-conditioned
+        sk = np.linalg.svd(K, compute_uv=False)
+        if np.any((sk < 1e-6 * sk[0]) & (sk > 1e-14 * sk[0])):
+            info["skip"] = "lstsq_threshold"
     s1 = max(S_all[0], 1e-300)
     if np.any(lam[:k] < -1e3 * TOL):
         info["skip"] = "nonpsd"
@@ -466,12 +508,12 @@ def _equivalences(case, rec, est, info, sets):
                         tag, o["score"], nm, float(val))))
         obs = [(np.array(o["T"]), np.array(o["pred"])) if ("T" in o and "pred" in o) else None for o in rec["news"]]
 
-        def compare(label, est2, argf, scale=1.0):
+        def compare(label, est2, argf, scale=1.0, with_pred=True):
             for (tag, Xv, Yv), ob in zip(sets, obs):
                 if ob is None:
                     continue
                 T2 = est2.transform(argf(tag, Xv)) * scale
-                P2 = as2d(est2.predict(argf(tag, Xv)), len(Xv)) if hasattr(est2, "predict") else None
+                P2 = as2d(est2.predict(argf(tag, Xv)), len(Xv)) if (with_pred and hasattr(est2, "predict")) else None
                 if not _close(T2 @ T2.T, ob[0] @ ob[0].T):
                     msgs.append((label + "_T", "%s: projections T T^T differ on a %s set (max dev %.3g)" % (
                         label, tag, float(np.max(np.abs(T2 @ T2.T - ob[0] @ ob[0].T))))))
@@ -495,6 +537,9 @@ def _equivalences(case, rec, est, info, sets):
             compare("center_vs_normalizer", est3,
                     lambda tag, Xv: Kc if tag == "train" else kn.transform(kern(case, Xv, X)))
         # (a') linear kernel == sample-space PCovR with the equivalent ridge regressor
+        # (the predictions coincide under the hypothesis Yhat = K W of C05_linear_is_pcovr: PCovR takes
+        #  pinv(T) = T^T, which holds for T = V S^{-1/2} only; the latent coordinates need no hypothesis)
+        consistent = case["regressor"] not in RAW_KINDS
         if case["kernel"] == "linear" and not case["center"] and k <= min(n, case["d"]):
             from skmatter.decomposition import PCovR
             from sklearn.linear_model import Ridge
@@ -519,9 +564,9 @@ def _equivalences(case, rec, est, info, sets):
 
                     def predict(self, A):
                         return est4.predict(A)
-                compare("linear_vs_pcovr", _Proj(), lambda tag, Xv: Xv)
+                compare("linear_vs_pcovr", _Proj(), lambda tag, Xv: Xv, with_pred=consistent)
             else:
-                compare("linear_vs_pcovr", est4, lambda tag, Xv: Xv)
+                compare("linear_vs_pcovr", est4, lambda tag, Xv: Xv, with_pred=consistent)
         # (d) mixing = 1 on a centred kernel: kernel PCA up to sign and the normaliser's scale
         if case["mixing"] == 1.0 and case["center"] and case["kernel"] != "precomputed" and info["n_dead"] == 0:
             from sklearn.decomposition import KernelPCA
@@ -653,6 +698,7 @@ def run_history(hist, probes=None):
                     _probe(est, case, Xfit, Yfit, ("NotFittedError",), "an unfitted object", probes, extra)
                 else:
                     est.set_params(**est_new.get_params(deep=False))
+                keep = (_pristine(Xfit), _pristine(Yfit), _pristine(W))
                 if W is None:
                     est.fit(Xfit, Yfit)
                 else:
@@ -663,17 +709,18 @@ def run_history(hist, probes=None):
                 est = None          # a failed fit leaves a half-updated object: start again
                 continue
             ever_centred = ever_centred or case["center"]
-            rec = observe(case, est, Xfit, Yfit, W)
+            disturb_caller_arrays(est, Xfit, Yfit, W)
+            rec = observe(case, est, *keep)
             info = mirror(case, rec)
             msgs = oracle(case, rec, est, info) + extra
             if si > 0 and info["skip"] is None:
-                fresh, _ = run_impl(case)
+                fresh, _ = run_impl(case, disturb=False)
                 msgs = msgs + _same_as_reference(case, rec, fresh)
             if not ever_centred:
                 # machine (center_on_without_refit): center switched on without a refit on an
                 # object that has no centerer_ -> the three methods raise AttributeError
                 est.set_params(center=True)
-                _probe(est, case, Xfit, Yfit, ("AttributeError",), "center=True set after a center=False fit, no refit",
+                _probe(est, case, keep[0], keep[1], ("AttributeError",), "center=True set after a center=False fit, no refit",
                        probes, msgs)
                 est.set_params(center=False)
             out.append((rec, info, msgs))
@@ -802,7 +849,7 @@ def run_present(case):
         return rec, None, oracle(case, rec, None, None)
     info = mirror(case, rec)
     plain = {k: v for k, v in case.items() if k != "present"}
-    ref, _ = run_impl(plain)
+    ref, _ = run_impl(plain, disturb=False)
     pres = "X as %s, new samples as %s" % (case["present"]["train"], case["present"]["new"])
     if case["present"]["train"] == "f32":
         msgs = oracle(case, rec, est, dict(info, skip="f32_training"))
@@ -822,3 +869,90 @@ def run_present(case):
         msgs = msgs + _same_as_reference(case, rec, ref, key="present", what="with " + pres,
                                          ref="the float64 ndarray presentation of the same values")
     return rec, info, msgs
+
+
+# --------------------------------------------------------------------------------- svd_solver
+# Which decomposition ran (coq/Model/KPCovRGuard.v::resolve_solver): est._fit_svd_solver after fit
+# and wrappers of _decompose_full / _decompose_truncated on the INSTANCE that count the calls.
+# Boundary sizes max(n_samples, n_features) in {499, 500, 501}; where the model resolves "full" on a
+# problem with mixing=1, center=True the projections are compared with sklearn KernelPCA.
+SOLVER_TERM = {"auto": "SAuto", "full": "SFull", "arpack": "SArpack", "randomized": "SRandomized"}
+SOLVER_CODE = {"full": 1, "arpack": 2, "randomized": 3}
+
+
+def gen_solver_cases(rng, quick):
+    out = []
+
+    def mk(n, d, k, solver, kernel, gamma, kpca):
+        return dict(n=n, d=d, k=k, solver=solver, kernel=kernel, gamma=gamma, kpca=kpca,
+                    seed=rng.randrange(2 ** 31))
+    # many samples, few features, flat rbf spectrum: 500 always, one neighbour size per quick run
+    big = [500, rng.choice([499, 501])] if quick else [499, 500, 500, 501]
+    for n in big:
+        out.append(mk(n, rng.randint(2, 3), rng.randint(2, 4), "auto", "rbf", round(rng.uniform(5.0, 10.0), 3), True))
+    if not quick:
+        out.append(mk(501, 2, rng.randint(402, 450), "auto", "rbf", 6.0, False))     # k >= 0.8 max -> full
+    # few samples, many features (n_features_in_ enters the rule)
+    for d in ([500, 501] if quick else [499, 500, 501, 502, 640]):
+        out.append(mk(rng.randint(5, 8), d, rng.randint(1, 4), "auto", "linear", None, False))
+    # small problems, every solver argument
+    for _ in range(4 if quick else 30):
+        n = rng.randint(5, 9)
+        solver = rng.choice(["auto", "full", "arpack", "randomized"])
+        out.append(mk(n, rng.randint(2, 4), rng.randint(1, n - 1), solver, rng.choice(["linear", "rbf"]), 0.5, False))
+    return out
+
+
+def run_solver_case(g):
+    """fit once; returns dict(code, full, trunc, msgs) - msgs are property failures (kernel PCA)"""
+    from skmatter.decomposition import KernelPCovR
+    rs = np.random.RandomState(g["seed"])
+    n, d, k = g["n"], g["d"], g["k"]
+    X = rs.standard_normal((n, d)) if g["kernel"] == "rbf" else rs.standard_normal((n, d)) / math.sqrt(d)
+    Y = X[:, :1] + 0.1 * rs.standard_normal((n, 1))
+    kp = dict(kernel=g["kernel"], gamma=g["gamma"])
+    est = KernelPCovR(mixing=1.0 if g["kpca"] else 0.5, n_components=k, svd_solver=g["solver"],
+                      center=bool(g["kpca"]), random_state=0, **kp)
+    calls = dict(full=0, trunc=0)
+    f0, t0 = est._decompose_full, est._decompose_truncated
+
+    def wfull(mat):
+        calls["full"] += 1
+        return f0(mat)
+
+    def wtrunc(mat):
+        calls["trunc"] += 1
+        return t0(mat)
+    est._decompose_full, est._decompose_truncated = wfull, wtrunc
+    obs = dict(code=99, full=0, trunc=0, msgs=[], err="")
+    with warnings.catch_warnings():
+        warnings.simplefilter("ignore")
+        try:
+            est.fit(X, Y)
+        except Exception as e:  # noqa
+            obs["err"] = "%s: %s" % (type(e).__name__, str(e)[:160])
+            return obs
+        obs.update(code=SOLVER_CODE.get(getattr(est, "_fit_svd_solver", None), 98), full=calls["full"], trunc=calls["trunc"])
+        if g["kpca"] and max(n, d) <= 500:
+            # model: full SVD -> exact kernel PCA of the centred, scaled kernel (C05_kpca_limit_scaled)
+            from sklearn.decomposition import KernelPCA
+            from sklearn.metrics.pairwise import pairwise_kernels
+            Kraw = pairwise_kernels(X, metric=g["kernel"], gamma=g["gamma"])
+            Kc, _, _, scale = center_blocks(Kraw)
+            lam = np.linalg.eigvalsh(Kc)[::-1]
+            if lam[k - 1] - lam[k] > 1e-4 * lam[0] and lam[k - 1] > 1e-6 * lam[0]:
+                kpca = KernelPCA(n_components=k, kernel=g["kernel"], gamma=g["gamma"], eigen_solver="dense").fit(X)
+                T = est.transform(X)
+                T2 = kpca.transform(X) / math.sqrt(scale)
+                A, B = T @ T.T, T2 @ T2.T
+                if not _close(A, B, 1e-6, 1e-9):
+                    obs["msgs"].append(("kpca_limit", "mixing=1, center=True, %d training samples (default svd_solver): "
+                                        "projections differ from KernelPCA/sqrt(scale) on the training set (max dev %.3g "
+                                        "of %.3g)" % (n, float(np.max(np.abs(A - B))), float(np.max(np.abs(B))))))
+                obs["kpca_compared"] = True
+    return obs
+
+
+def solver_coq(g, obs):
+    return "solver_case %s %d %d %d %d%%nat %d%%nat %d%%nat" % (
+        SOLVER_TERM[g["solver"]], g["n"], g["d"], g["k"], obs["code"], obs["full"], obs["trunc"])
